@@ -21,7 +21,25 @@ def gen_histories(ctx, label, n):
         crits = [] if bf else lpcommon.gen_crits(rng, ast, n=rng.choice([0, 1, 1, 2, 3]))
         argv = lpcommon.argv_of(ast['na'], twopl, pc, stab, crits, rng) + (['-bf'] if bf else [])
         limit = rng.choice([None, None, 5, 0.5])
-        if i < len(short) and not ctx.search:
+        if i % 5 == 4:
+            # the same getter several times in a row, other getters in between (a getter must not change what a later
+            # call of itself or of another getter returns); capacities above one so that listings have several entries
+            ast = instgen.gen_ast(rng, maxS=5, maxP=2, maxL=2, zero_caps=False, lower=False)
+            for pr in ast['projects']:
+                pr[1] = rng.choice([2, 3])
+            for le in ast['lecturers']:
+                le[2] = max(le[2], 3)
+                le[1] = min(le[1], le[2])
+            if ast['na'] == 2:
+                for le, pr in zip(ast['lecturers'], ast['projects']):
+                    le[0], le[1], le[2] = pr[0], pr[1], pr[1]
+            twopl, bf, stab, pc = True, False, rng.random() < 0.3, False
+            crits = lpcommon.gen_crits(rng, ast, names=rng.choice([['maxsize'], ['maxsize', 'mincost'], []]))
+            argv = lpcommon.argv_of(ast['na'], twopl, pc, stab, crits, rng)
+            g = rng.choice(OPS[1:])
+            g2 = rng.choice(OPS[1:])
+            tail = [g, g, g2, g] + (['solve', g, g] if rng.random() < 0.4 else [])
+        elif i < len(short) and not ctx.search:
             tail = short[i]
         else:
             tail = [rng.choice(OPS) for _ in range(rng.randint(1, 10 if ctx.thorough else 6))]
